@@ -717,7 +717,7 @@ fn mutate_tree(rng: &mut Rng, root: &mut Node) -> &'static str {
         }
         9 => {
             let i = rng.below(kids.len() as u64 + 1) as usize;
-            kids.insert(i, Node::Raw(rng.pick(&[&b" "[..], b"\n", b"\t\r\n ", b"junk", b"\xef\xbb\xbf", b"\xff", b"]]>", b"\x01", b"\xef\xbf\xbe"]).to_vec()));
+            kids.insert(i, Node::Raw(rng.pick(&[&b" "[..], b"\n", b"\t\r\n ", b"junk", b"\xef\xbb\xbf", b"\xff", b"]]>", b"\x01", b"\xef\xbf\xbe", b"a]]>b", b"]]&gt;", b"]] >", b"]>", b"]]]>"]).to_vec()));
             "ins-text"
         }
         10 => {
